@@ -120,7 +120,7 @@ def phi_site(eng, key):
     return None
 
 
-def leaves_cd(eng, t):
+def leaves_cd(eng, t, enum_origins=False):
     """data dependences plus control dependences: for every phi reached, the conditions that decide which
     incoming value it takes (switch discriminants between the merge's immediate dominator and the merge)"""
     out = set()
@@ -156,6 +156,16 @@ def leaves_cd(eng, t):
             continue
         if op in ("ref", "undef"):
             continue
+        if op == "enum" and enum_origins:
+            # which alternative a partitioned value takes is decided by the conditions under which each was built
+            # (all dominating conditions: a superset of the control dependence - use only for must-not-depend rules
+            # about success/failure, not for "and nothing else" rules about values)
+            for alt in x.args[1]:
+                for f in alt[3]:
+                    stack.append(f[0])
+                for (fk, b) in alt[4]:
+                    for f in eng.facts_at(fk, b):
+                        stack.append(f[0])
         stack.extend(x.args)
     return out
 
